@@ -113,6 +113,7 @@ type c01Trace struct {
 	values  []proposalValue
 	maxP    period
 	synth   int
+	dbg     int
 }
 
 type c01Node struct {
@@ -162,6 +163,7 @@ type c01Sim struct {
 	failed string
 	nilHit int
 	lastR  round
+	runIdx int
 }
 
 type c01Stats struct {
@@ -431,6 +433,14 @@ func (s *c01Sim) submit(i int, e vsmEvent) {
 		pl2 := nd.m.player()
 		fmt.Fprintf(os.Stderr, "c01 step %d node %d %s -> (%d,%d,%d) %s %s\n", s.step, nd.id, e.kind+":"+c01Short(e), pl2.Round, pl2.Period, pl2.Step, pc, vT(s.c.renderActions(acts)...))
 	}
+	if c01Debug {
+		for _, t := range s.tr {
+			for len(t.evs) > t.dbg {
+				fmt.Fprintf(os.Stderr, "      trace %s\n", t.evs[t.dbg].term)
+				t.dbg++
+			}
+		}
+	}
 	if pc != "" {
 		s.st.panics++
 		s.st.panicClasses[pc]++
@@ -467,6 +477,12 @@ func (s *c01Sim) viaOf(nd *c01Node, r round, target period) (k uint64, val uint6
 // syncEquivocators: a tracker that holds a quorum for value v with the help of equivocators counts every
 // equivocator X as a voter for v; X is provably Byzantine, so Vote(X, p, s, v) is added to the trace
 func (s *c01Sim) syncEquivocators(nd *c01Node) {
+	type item struct {
+		r  round
+		k  c01VK
+		pv proposalValue
+	}
+	var items []item
 	for r, rr := range nd.m.rr.Children {
 		if !s.inScope(r) || rr == nil {
 			continue
@@ -484,21 +500,37 @@ func (s *c01Sim) syncEquivocators(nd *c01Node) {
 					if !st.reachesQuorum(s.c.proto, t.count(pv)) {
 						continue
 					}
-					var xs []uint64
 					for a := range t.Equivocators {
-						xs = append(xs, vsmSnd(a))
-					}
-					sort.Slice(xs, func(a, b int) bool { return xs[a] < xs[b] })
-					for _, x := range xs {
-						k := c01VK{x, uint64(p), uint64(st), s.valID(pv)}
+						k := c01VK{vsmSnd(a), uint64(p), uint64(st), s.valID(pv)}
 						if !s.trace(r).voted[k] {
-							s.recordVote(r, x, p, st, pv, false)
-							s.trace(r).synth++
-							s.st.synth++
+							items = append(items, item{r, k, pv})
 						}
 					}
 				}
 			}
+		}
+	}
+	sort.Slice(items, func(a, b int) bool {
+		x, y := items[a], items[b]
+		if x.r != y.r {
+			return x.r < y.r
+		}
+		if x.k.p != y.k.p {
+			return x.k.p < y.k.p
+		}
+		if x.k.s != y.k.s {
+			return x.k.s < y.k.s
+		}
+		if x.k.val != y.k.val {
+			return x.k.val < y.k.val
+		}
+		return x.k.snd < y.k.snd
+	})
+	for _, it := range items {
+		if !s.trace(it.r).voted[it.k] {
+			s.recordVote(it.r, it.k.snd, period(it.k.p), step(it.k.s), it.pv, false)
+			s.trace(it.r).synth++
+			s.st.synth++
 		}
 	}
 }
@@ -584,7 +616,10 @@ func (s *c01Sim) after(i int, r0 round, p0 period, acts []action, restored bool)
 					s.bcast(i, c01Msg{kind: c01MCompound, uv: x.CompoundMessage.Vote, pv: x.CompoundMessage.Proposal.value(), rnd: x.CompoundMessage.Proposal.Round()})
 				}
 			case broadcastVotes:
-				for _, uv := range x.UnauthenticatedVotes {
+				// dumpVotesRequest walks Go maps: fix the order so that runs are reproducible
+				uvs := append([]unauthenticatedVote(nil), x.UnauthenticatedVotes...)
+				sort.SliceStable(uvs, func(a, b int) bool { return s.msgKey(c01Msg{kind: c01MVote, uv: uvs[a]}) < s.msgKey(c01Msg{kind: c01MVote, uv: uvs[b]}) })
+				for _, uv := range uvs {
 					s.bcast(i, c01Msg{kind: c01MVote, uv: uv, rnd: uv.R.Round})
 				}
 			}
@@ -1374,7 +1409,7 @@ func (s *c01Sim) caseLines() []string {
 			crashes += nd.crashes
 			panics += nd.panics
 		}
-		sb.WriteString(vT(uint64(r), vSym(s.cfg.mode), s.cfg.over, crashes, panics, t.synth))
+		sb.WriteString(vT(uint64(r), vSym(s.cfg.mode), s.cfg.over, crashes, panics, t.synth, s.runIdx))
 		sb.WriteString(")")
 		out = append(out, sb.String())
 		if int(t.maxP) > s.st.maxPeriod {
@@ -1541,7 +1576,9 @@ func TestVerifC01(t *testing.T) {
 	for k := 0; k < n; k++ {
 		over := k%12 == 11
 		cfg := c01RandomCfg(rnd, k, over)
+		c01Debug = os.Getenv("VERIF_C01_DEBUG") != "" && vEnvInt("VERIF_C01_DEBUGRUN", k) == k
 		s := c01NewSim(vers[k%len(vers)], rnd, cfg, st)
+		s.runIdx = k
 		st.runs++
 		st.modes[cfg.mode]++
 		s.runAsync(cfg.steps, maxTrace)
